@@ -511,6 +511,56 @@ fn enumerate(_tier: Tier, idx: u32, of: u32, cx: &mut Cx) -> CaseResult {
         cx.inner_nontrivial += 1;
     }
     crate::engine::force_remove(&sub);
+
+    // --- the follow-up backup made by the SAME opened archive value that made the first
+    // one (a long-running program): block files deleted or emptied in between
+    let m = crate::probes::plain_meta();
+    let mut t = tree::Tree::empty_root(tree::Meta { mode: 0o755, ..m });
+    for (name, pool, len) in [("a", 2u8, 300u32), ("b", 3, 5000), ("c", 4, 40), ("d", 5, 1), ("e", 6, 900)] {
+        t.0.insert(format!("/{name}"), tree::Node { kind: tree::Kind::File { pool, len }, meta: m });
+    }
+    for (variant, empty_them, only_first) in [("delete-all", false, false), ("empty-all", true, false), ("delete-one", false, true), ("empty-one", true, true)] {
+        crate::engine::heartbeat();
+        let sub = cx.dir("same-handle");
+        crate::engine::force_remove(&sub);
+        std::fs::create_dir_all(&sub).unwrap();
+        let w = World::new(&sub, &t);
+        let arch = w.arch.clone();
+        let between = Box::new(move || {
+            let blocks: Vec<String> = format::scan(&arch).blocks.values().map(|b| b.relpath.clone()).collect();
+            for (i, rel) in blocks.iter().enumerate() {
+                if only_first && i > 0 {
+                    break;
+                }
+                if empty_them {
+                    std::fs::write(arch.join(rel), b"").unwrap();
+                } else {
+                    std::fs::remove_file(arch.join(rel)).unwrap();
+                }
+            }
+        });
+        let r = ops::two_backups_one_handle(&w.arch, &w.src, ops::Opts { hunk: 3, block: 1000, cap: 100 }, between);
+        ensure!(r.panic.is_none(), format!("C10/backup-panic/probe-same-handle-{variant}"), "{}", r.describe());
+        ensure!(
+            r.result.is_ok(),
+            format!("C10/backup-after-removal-failed/probe-same-handle-{variant}"),
+            "a second backup through the archive value that made the first one failed after its block files were removed/emptied: {}",
+            r.describe()
+        );
+        let dest = sub.join("restored");
+        let rr = ops::restore(&w.arch, &None, &dest, &Sel::LatestClosed, None, &[], false);
+        let diff = tree::first_diff(&tree::expected(&t), &tree::snapshot(&dest), CmpOpts::restore());
+        ensure!(
+            rr.clean() && diff.is_none(),
+            format!("C10/restore-after-removal-diff/probe-same-handle-{variant}"),
+            "the version written after the damage by the same archive value does not restore exactly: {} {:?}",
+            rr.describe(),
+            diff
+        );
+        crate::engine::force_remove(&sub);
+        cx.add_evals(1);
+        cx.inner_nontrivial += 1;
+    }
     Ok(())
 }
 
@@ -518,7 +568,7 @@ pub fn prop() -> Prop<Case> {
     Prop {
         id: "C10",
         level: "fault_enumeration",
-        rule: "case = archive from a generated history of <=5 ops (incl. interrupted backups; a third of the histories are made to end with a complete backup in small hunks, edits, and a backup killed in the middle) + 3-7 bit-flip positions; inner domain enumerated: every stored file (heads, tails, hunks, blocks; the archive header only for a clean-failure probe) x {delete, truncate 0, truncate half, garbage of equal length} + the generated bit flips in every file (thorough: all pairs; quick: an evenly spaced third, at most 48 per archive, plus — never thinned away — deletion and garbling of the older band's hunk at the resume point of every interrupted version and of the hunk after it, and garbling/halving of that band's head). For each: versions, ls and restore of every band, validate (full, quick), a new backup and its restore must return without panic (listing length bounded by the archive's entry count; per-case watchdog for hangs). In every band whose head still parses and whose restore ran: every file entry of the pre-damage reference listing whose own hunk file and block files are not the damaged file (and, for entries stitched from an older band, whose band's head/tail are not the damaged file) must restore byte- and mtime-exact; an entry stitched from an older band whose head is still present but unreadable must restore exactly or restore must report an error; every file entry whose hunk or block is, by the independent decoder, now missing or undecodable requires that restore reported an error, and a file whose block was damaged and which does not restore to its recorded content must be named by a reported error (per file, so that an error for one file of a shared block does not excuse silently altered siblings) (deletion of the last hunk of an incomplete band is exempt: indistinguishable from an earlier interruption). After delete/truncate-0 a new backup must succeed and restore the source exactly. Non-trivial inner = the damaged file is referenced by at least one version; inner values distinct by construction. Fixed scale probes per run: hunks 9 999, 10 000, 10 001 and 5 of a 10 015-hunk version deleted/garbled/emptied (restore must report, restore everything else exactly, quick validate must report), and three bit flips inside a 6 MiB block",
+        rule: "case = archive from a generated history of <=5 ops (incl. interrupted backups; a third of the histories are made to end with a complete backup in small hunks, edits, and a backup killed in the middle) + 3-7 bit-flip positions; inner domain enumerated: every stored file (heads, tails, hunks, blocks; the archive header only for a clean-failure probe) x {delete, truncate 0, truncate half, garbage of equal length} + the generated bit flips in every file (thorough: all pairs; quick: an evenly spaced third, at most 48 per archive, plus — never thinned away — deletion and garbling of the older band's hunk at the resume point of every interrupted version and of the hunk after it, and garbling/halving of that band's head). For each: versions, ls and restore of every band, validate (full, quick), a new backup and its restore must return without panic (listing length bounded by the archive's entry count; per-case watchdog for hangs). In every band whose head still parses and whose restore ran: every file entry of the pre-damage reference listing whose own hunk file and block files are not the damaged file (and, for entries stitched from an older band, whose band's head/tail are not the damaged file) must restore byte- and mtime-exact; an entry stitched from an older band whose head is still present but unreadable must restore exactly or restore must report an error; every file entry whose hunk or block is, by the independent decoder, now missing or undecodable requires that restore reported an error, and a file whose block was damaged and which does not restore to its recorded content must be named by a reported error (per file, so that an error for one file of a shared block does not excuse silently altered siblings) (deletion of the last hunk of an incomplete band is exempt: indistinguishable from an earlier interruption). After delete/truncate-0 a new backup must succeed and restore the source exactly. Non-trivial inner = the damaged file is referenced by at least one version; inner values distinct by construction. Fixed scale probes per run: hunks 9 999, 10 000, 10 001 and 5 of a 10 015-hunk version deleted/garbled/emptied (restore must report, restore everything else exactly, quick validate must report), and three bit flips inside a 6 MiB block; and the follow-up backup made through the same opened archive value as the first one after all / one of its block files were deleted / emptied must complete and restore exactly",
         assumptions: &[
             "'reported an error' is lenient: Err, Monitor error, or ERROR-level tracing event",
             "hunks altered but still decodable carry only the no-crash obligation",
